@@ -33,8 +33,8 @@ NOTE_FORMS = {
     # is part of the item and leaves the source with it; it need not arrive in the destination
     "trailing-ws": [f"- {MZ} note ending in a blank-looking line", "  continued", "   "],
 }
-POSITIONS = ["first", "middle", "last", "only-in-block", "under-h1", "under-h2"]
-MENTIONS = ["none", "earlier-note", "later-note", "earlier-zid-link", "self", "earlier-bullet"]
+POSITIONS = ["first", "middle", "last", "only-in-block", "under-h1", "under-h2", "before-comment", "before-header"]
+MENTIONS = ["none", "earlier-note", "later-note", "earlier-zid-link", "self", "earlier-bullet", "earlier-longer-zid"]
 OWN_TAGS = ["none", "same-as-inherited", "extends-inherited", "own-keys-end-with-inherited-keys"]
 DESTS = ["missing-no-template", "missing-template", "header-only", "header-blank", "block-nl", "block-no-nl",
          "block-two-blank", "block-then-section", "ends-with-section-header", "mentions-zid",
@@ -62,6 +62,9 @@ def build_source(form, pos, mention, own):
         a += f" see {MZ} for more"
     elif mention == "earlier-zid-link":
         a += f" see [{MZ}] for more"
+    elif mention == "earlier-longer-zid":
+        # the neighbour above carries a three-character ZID that BEGINS with the moved ZID
+        a = f"- {MZ}1 neighbour one"
     elif mention == "earlier-bullet":
         # an earlier note has a nested bullet that starts with the ZID
         a += f"\n  * related:\n    - {MZ} see this one"
@@ -83,6 +86,12 @@ def build_source(form, pos, mention, own):
         body = a + "\n\n" + f"{H1R} Sec One @ctx sk::sv\n\n" + "\n".join(note) + "\n" + b + "\n"
     elif pos == "under-h2":
         body = a + "\n\n" + f"{H1R} Sec One @ctx\n\n{H2R} Sub %per [deep:: x y]\n\n" + "\n".join([b] + note) + "\n"
+    elif pos == "before-comment":
+        # last item of its block, an in-block comment right below it
+        body = "\n".join([a] + note) + "\n# a comment that belongs to the block, not to the note\n" + b + "\n"
+    elif pos == "before-header":
+        # a section header directly below the note, without a blank line
+        body = "\n".join([a] + note) + f"\n{H1R} Sec Two @ctx2 sk2::sv2\n\n" + b + "\n"
     else:
         raise H.HarnessError(pos)
     return head + body, note
